@@ -4,6 +4,7 @@ use crate::tape::Tape;
 
 pub mod c01;
 pub mod c15;
+pub mod c16;
 pub mod c19;
 pub mod c20;
 
@@ -20,6 +21,7 @@ pub fn all() -> Vec<Prop> {
     vec![
         Prop { id: "C01", level: "exploration", case: c01::case, run: c01::run, replay_reps: 1 },
         Prop { id: "C15", level: "exploration", case: c15::case, run: c15::run, replay_reps: 1 },
+        Prop { id: "C16", level: "exploration", case: c16::case, run: c16::run, replay_reps: 1 },
         Prop { id: "C19", level: "exploration", case: c19::case, run: c19::run, replay_reps: 1 },
         Prop { id: "C20", level: "exploration", case: c20::case, run: c20::run, replay_reps: 1 },
     ]
